@@ -319,6 +319,12 @@ def oracle_c10(run, ops, impl):
         d = parse_tally_op(op)
         o = parse_tally_obs(ob)
         ballots = tally_ballots(d)
+        # the vote targets of the NEXT period: when the period end rewrites the WhitelistedPairs store at all, it rewrites it to the
+        # whitelist parameter — a de-listed pair does not stay a target (votes for it would be accepted and could set its rate)
+        w_after = sorted(plist(sec(ob.split(), "W")))
+        if w_after != sorted(d["wl"]) and w_after != sorted(set(d["next"])):
+            out.append(V("C10:delisted-or-unlisted-pair-is-a-vote-target-after-refresh",
+                         {"line": i + 1, "store_before": sorted(d["wl"]), "param": sorted(d["next"]), "store_after": w_after}))
         for pair in set(list(d["rates"]) + list(o["rates"]) + list(ballots) + d["wl"]):
             b = ballots.get(pair, [])
             should = pair in d["wl"] and quorum(d, b)
